@@ -14,6 +14,14 @@ def c_rem(x, y):
     return x - y * c_div(x, y)
 
 
+def c_wrap(value, bits, signed):
+    """Convert value to the two's complement integer type of given size."""
+    value = value & ((1 << bits) - 1)
+    if signed and value >= (1 << (bits - 1)):
+        value = value - (1 << bits)
+    return value
+
+
 class ConstantExpressionEvaluator:
     """Class which is capable of evaluating expressions."""
 
@@ -88,11 +96,18 @@ class ConstantExpressionEvaluator:
 
         # do some real casting:
         if expr.typ.is_integer:
-            value = int(value)
+            value = self.convert(expr.typ, int(value))
         elif expr.typ.is_float or expr.typ.is_double:
             value = float(value)
         else:
             pass
+        return value
+
+    def convert(self, typ, value):
+        """Convert an integer value to the given integer type."""
+        if typ.is_integer and isinstance(value, int):
+            bits = 8 * self.context.sizeof(typ)
+            value = c_wrap(value, bits, typ.is_signed)
         return value
 
     def eval_unop(self, expr):
@@ -104,7 +119,7 @@ class ConstantExpressionEvaluator:
                 "~": lambda x: ~x,
                 "!": lambda x: int(x == 0),
             }
-            value = op_map[expr.op](a)
+            value = self.convert(expr.typ, op_map[expr.op](a))
         elif expr.op == "&":
             value = self.eval_take_address(expr.a)
         else:  # pragma: no cover
@@ -163,5 +178,5 @@ class ConstantExpressionEvaluator:
         else:
             op_map["/"] = lambda x, y: x / y
 
-        value = op_map[op](lhs, rhs)
+        value = self.convert(expr.typ, op_map[op](lhs, rhs))
         return value
